@@ -14,6 +14,7 @@ RULE = (
     "book); non-trivial = round entered with a crossed book or with a market order resting. Termination: the "
     "round must return within a budget of executed lines proportional to the book size (logical steps, not "
     "wall clock)."
+    ' Since the seeded rounds: decimal-tick histories with frequent requests refused by design, forced rounds on a stopped market (refusal tolerated, market used normally afterwards).'
 )
 ASSUMPTIONS = [
     "a matching round is only requested while the market is running (what the runner does)",
